@@ -338,6 +338,14 @@ def preprocess(outputs: DictOfNamedArrays, target: Target) -> PreprocessResult:
     assert isinstance(new_outputs, DictOfNamedArrays)
 
     mapper = CodeGenPreprocessor(target)
+
+    # names minted for data wrappers must not collide with the user's input names
+    from pytato.transform import InputGatherer
+    mapper.var_name_gen.add_names({
+        inp.name
+        for inp in InputGatherer()(new_outputs)
+        if isinstance(inp, Placeholder | SizeParam) and inp.name is not None})
+
     new_outputs = copy_dict_of_named_arrays(new_outputs, mapper)
 
     return PreprocessResult(outputs=new_outputs,
